@@ -125,6 +125,30 @@ func (m *model) remove(route string) (string, []xstate.Violation, error) {
 		viol = append(viol, xstate.Violation{Oracle: "c14.remove", Sig: sig, Detail: fmt.Sprintf("[%s %s, %d remotes, %d others, after %v] ", m.p.Kind, route, m.p.Remotes, m.p.Others, m.applied[:len(m.applied)-1]) + fmt.Sprintf(format, a...)})
 	}
 	local, all := m.targetRefs()
+	// the remotes that are configured, as stock git sees them (own handle on the config file):
+	// tracking refs of the entity are due for removal under each of them and nowhere else
+	configured, err := m.configuredRemotes()
+	if err != nil {
+		return "", nil, err
+	}
+	due := func(r string) bool {
+		if !m.isTargetRef(r) {
+			return false
+		}
+		if parts := strings.Split(r, "/"); len(parts) > 3 && parts[1] == "remotes" {
+			return configured[parts[2]]
+		}
+		return true
+	}
+	{
+		var d []string
+		for _, r := range all {
+			if due(r) {
+				d = append(d, r)
+			}
+		}
+		all = d
+	}
 	before := m.snap()
 	second := len(all) == 0
 	var rmErr error
@@ -219,7 +243,7 @@ func (m *model) remove(route string) (string, []xstate.Violation, error) {
 	survivors := 0
 	for r, h := range before.refs {
 		ah, still := after.refs[r]
-		if m.isTargetRef(r) {
+		if due(r) {
 			if still {
 				survivors++
 				if rmErr == nil {
